@@ -190,3 +190,24 @@ def enumerate_blocks(vocab, shapes, maxin, simulate=None, seed=0, timeout=1800, 
             seen.add(text)
             out.append(text)
     return out, r
+
+
+def rule_patterns():
+    """the rule catalogue of spec/Rules.tla as TLC prints it: [(rule name, arity, triggering block)]"""
+    r = common.run_tlc("Rules", "RulesEmit.cfg", workers=1, heap="1g", tag="rulesemit", timeout=600)
+    if not r.ok:
+        raise common.MachineryError("Rules.tla (RulesEmit.cfg) failed:\n" + r.out[-1500:])
+    return [(t[1], t[2], t[3]) for t in r.tagged("RULE")]
+
+
+def rule_pattern_blocks(prefixes=("", "SWAP1", "SWAP2", "DUP2"), suffixes=("", "SWAP1")):
+    """every catalogued rule pattern behind a stack permutation (the operands reach the rule in every order) and
+    followed by a consumer of the stack below"""
+    out = []
+    for _, _, p in rule_patterns():
+        for a in prefixes:
+            for b in suffixes:
+                t = " ".join(x for x in (a, p, b) if x)
+                if t not in out:
+                    out.append(t)
+    return out
